@@ -298,8 +298,10 @@ class Project:
             return {}
 
     # ------------------------------------------------------------ drivers
-    def gwf(self, args, input=None, cwd=None, extra_env=None):
-        """Run one gwf command in-process (fresh workflow load, fresh state files)."""
+    def gwf(self, args, input=None, cwd=None, extra_env=None, track_fs=False):
+        """Run one gwf command in-process (fresh workflow load, fresh state files).
+        With track_fs, os.utime/os.open(O_CREAT)/open(w) events inside the project are
+        recorded in order (Res.fs_events) so the harness can assign logical mtimes."""
         import click
         from click.testing import CliRunner
 
@@ -322,6 +324,32 @@ class Project:
                 return _FakePopen(sim, [str(x) for x in argv])
             return saved_popen(argv, *a, **kw)
 
+        events = []
+        saved_utime, saved_open = os.utime, os.open
+        if track_fs:
+            pdir = self.dir
+
+            def _note(kind, path):
+                try:
+                    ap = os.path.abspath(os.fspath(path))
+                except TypeError:
+                    return
+                if ap.startswith(pdir + os.sep) and "/.gwf/" not in ap and not ap.endswith(".gwfconf.json"):
+                    events.append((kind, os.path.relpath(ap, pdir)))
+
+            def utime(path, *a, **kw):
+                r = saved_utime(path, *a, **kw)
+                _note("utime", path)
+                return r
+
+            def os_open(path, flags, *a, **kw):
+                existed = os.path.lexists(path) if isinstance(path, (str, bytes, os.PathLike)) else True
+                r = saved_open(path, flags, *a, **kw)
+                if flags & (os.O_CREAT | os.O_TRUNC | os.O_WRONLY | os.O_RDWR):
+                    _note("create" if not existed else "open-write", path)
+                return r
+
+            os.utime, os.open = utime, os_open
         os.environ["PATH"] = bdir + os.pathsep + saved_env.get("PATH", "")
         os.environ.pop("NO_COLOR", None)
         if extra_env:
@@ -331,6 +359,7 @@ class Project:
         try:
             r = CliRunner().invoke(gwf.cli.main, args, input=input, catch_exceptions=True)
         finally:
+            os.utime, os.open = saved_utime, saved_open
             os.chdir(old_cwd)
             subprocess.Popen = saved_popen
             os.environ.clear()
@@ -345,7 +374,9 @@ class Project:
             err = r.stderr
         except (ValueError, AttributeError):
             err = ""
-        return Res(args, r.exit_code, r.stdout, err, r.exception)
+        res = Res(args, r.exit_code, r.stdout, err, r.exception)
+        res.fs_events = events
+        return res
 
     # sub-process driver ---------------------------------------------------
     def serve(self):
